@@ -7,10 +7,15 @@ import (
 	"fmt"
 	"math"
 	"math/big"
+	"os"
+	"os/exec"
 	"runtime"
+	"runtime/debug"
 	"sort"
 	"strings"
 	"sync"
+	"syscall"
+	"time"
 
 	"seehuhn.de/go/postscript/type1"
 
@@ -314,6 +319,17 @@ func checkT1(v *t1Vec, line int) *disagreement {
 		v.Lay = layoutRotation[line%len(layoutRotation)]
 	}
 	spec := buildSpec(v)
+	if v.Fam == "hostile" {
+		// C01c: hostile lenIV values (the cipher still uses four lead bytes), odd containers
+		raw := hostileLenIV[line%12]
+		if line%3 != 0 {
+			spec.LenIVRaw = &raw
+		}
+		v.Lay = layoutRotation[line%len(layoutRotation)]
+		if line%11 == 0 {
+			spec.Subrs = append(spec.Subrs, v.Glyphs.Toks[len(v.Glyphs.Toks)-1]) // a subroutine that calls itself / runs wild
+		}
+	}
 	data, err := indep.WriteFont(spec, v.Lay)
 	lay := fmt.Sprintf("%s lenIV=%d names=%s long=%v enc=%s", v.Lay.Cont, v.Lay.LenIV, v.Lay.Names, v.Lay.LongNum, v.Lay.Enc)
 	mk := func(kind, what, obs string) *disagreement {
@@ -423,10 +439,157 @@ func checkT1(v *t1Vec, line int) *disagreement {
 	return nil
 }
 
+// replayT1Isolated runs the vectors in child processes with an address-space limit, so
+// that a fatal runtime error (absurd allocation, stack exhaustion) is observed, not
+// suffered; a dying batch is bisected to the single vectors that kill it.
+func replayT1Isolated(path string) error {
+	var lines [][]byte
+	err := model.ReadAny(path, func(line int, raw []byte) error {
+		lines = append(lines, append([]byte{}, raw...))
+		return nil
+	})
+	if err != nil {
+		return err
+	}
+	self, _ := os.Executable()
+	total := replaySummary{PerOp: map[string]int{}, PerOpOK: map[string]int{}, BySig: map[string]int{}}
+	var mu sync.Mutex
+	runBatch := func(lo, hi int) (*replaySummary, string) {
+		tmp, _ := os.CreateTemp("", "t1batch*.ndjson")
+		for k := lo; k < hi; k++ {
+			// keep the original line numbers: they select layouts and lenIV values
+			fmt.Fprintf(tmp, "{\"__line\":%d,\"v\":%s}\n", k+1, lines[k])
+		}
+		tmp.Close()
+		defer os.Remove(tmp.Name())
+		cmd := exec.Command(self, "replay-t1", "-child", tmp.Name())
+		var out, errb bytes.Buffer
+		cmd.Stdout, cmd.Stderr = &out, &errb
+		done := make(chan error, 1)
+		cmd.Start()
+		go func() { done <- cmd.Wait() }()
+		select {
+		case e := <-done:
+			if e != nil {
+				msg := errb.String()
+				if i := strings.Index(msg, "\n"); i > 0 {
+					msg = msg[:i]
+				}
+				return nil, fmt.Sprintf("%v: %s", e, msg)
+			}
+		case <-time.After(180 * time.Second):
+			cmd.Process.Kill()
+			<-done
+			return nil, "no return within 180 s"
+		}
+		var s replaySummary
+		if err := json.Unmarshal(out.Bytes(), &s); err != nil {
+			return nil, "bad child output: " + err.Error()
+		}
+		return &s, ""
+	}
+	var work func(lo, hi int)
+	merge := func(s *replaySummary) {
+		mu.Lock()
+		defer mu.Unlock()
+		total.Vectors += s.Vectors
+		total.Agreed += s.Agreed
+		total.ExpectOK += s.ExpectOK
+		total.NDisagree += s.NDisagree
+		for k, v := range s.PerOp {
+			total.PerOp[k] += v
+		}
+		for k, v := range s.PerOpOK {
+			total.PerOpOK[k] += v
+		}
+		for k, v := range s.BySig {
+			total.BySig[k] += v
+		}
+		total.Disagreements = append(total.Disagreements, s.Disagreements...)
+		if len(total.Samples) < 4 {
+			total.Samples = append(total.Samples, s.Samples...)
+		}
+	}
+	work = func(lo, hi int) {
+		s, dead := runBatch(lo, hi)
+		if dead == "" {
+			merge(s)
+			return
+		}
+		if hi-lo == 1 {
+			var v t1Vec
+			json.Unmarshal(lines[lo], &v)
+			var toks []string
+			for _, t := range v.Glyphs.Toks[len(v.Glyphs.Toks)-1] {
+				if t.T == "n" {
+					toks = append(toks, fmt.Sprint(t.V))
+				} else {
+					toks = append(toks, t.C)
+				}
+			}
+			kind := "process-abort"
+			if strings.Contains(dead, "no return") {
+				kind = "hang"
+			}
+			mu.Lock()
+			total.Vectors++
+			total.NDisagree++
+			sig := "t1read[" + v.Fam + "] " + kind
+			total.BySig[sig]++
+			if total.BySig[sig] <= 3 {
+				total.Disagreements = append(total.Disagreements, disagreement{Sig: sig, What: "type1.Read killed the process or did not return",
+					Stimulus: fmt.Sprintf("vector %d (%s): %s", lo+1, hostileDesc(lo+1), strings.Join(toks, " ")), Expected: "a result or an error", Observed: dead})
+			}
+			mu.Unlock()
+			return
+		}
+		mid := (lo + hi) / 2
+		work(lo, mid)
+		work(mid, hi)
+	}
+	const batch = 400
+	var wg sync.WaitGroup
+	sem := make(chan struct{}, max(2, runtime.NumCPU()/2))
+	for lo := 0; lo < len(lines); lo += batch {
+		lo, hi := lo, min(lo+batch, len(lines))
+		wg.Add(1)
+		sem <- struct{}{}
+		go func() {
+			defer wg.Done()
+			work(lo, hi)
+			<-sem
+		}()
+	}
+	wg.Wait()
+	total.Distinct = total.Vectors
+	return emit(total)
+}
+
+var hostileLenIV = []int64{-9223372036854775808, -2147483648, -5, -1, 0, 1, 4, 5, 2147483648, 9223372036854775807, 3, 1000}
+
+func hostileDesc(line int) string {
+	if line%3 != 0 {
+		return fmt.Sprintf("/lenIV %d", hostileLenIV[line%12])
+	}
+	return "default lenIV"
+}
+
 func replayT1(args []string) error {
 	fs := flag.NewFlagSet("replay-t1", flag.ContinueOnError)
+	isolate := fs.Bool("isolate", false, "run in child processes (C01)")
+	child := fs.Bool("child", false, "internal: child of -isolate")
 	if err := fs.Parse(args); err != nil {
 		return err
+	}
+	if *isolate {
+		return replayT1Isolated(fs.Arg(0))
+	}
+	if *child {
+		// one absurd allocation must kill this child, not the machine
+		var lim syscall.Rlimit
+		lim.Cur, lim.Max = 6<<30, 6<<30
+		syscall.Setrlimit(syscall.RLIMIT_AS, &lim)
+		debug.SetMaxStack(256 << 20)
 	}
 	type job struct {
 		line int
@@ -443,6 +606,14 @@ func replayT1(args []string) error {
 			defer wg.Done()
 			for j := range jobs {
 				var v t1Vec
+				var wrapped struct {
+					Line int             `json:"__line"`
+					V    json.RawMessage `json:"v"`
+				}
+				if json.Unmarshal(j.raw, &wrapped) == nil && wrapped.Line > 0 {
+					j.line = wrapped.Line
+					j.raw = wrapped.V
+				}
 				if err := json.Unmarshal(j.raw, &v); err != nil {
 					mu.Lock()
 					if firstErr == nil {
